@@ -50,6 +50,10 @@ for d, m in rows:
     tab += "| %s | %s | %s | %s | %s |\n" % (d, m.get("property"), m.get("summary", "").replace("|", "/")[:300], m.get("needs", "").replace("|", "/")[:300],
                                          "; ".join("**%s**: %s" % kv for kv in sorted(m["checks_run_against_it"].items())))
 first = sum(1 for d, m in rows if any("first run: not detected" in v or "first run printed" in v for v in m["checks_run_against_it"].values()))
-tab += "\n%d seeded changes; %d were missed (or mis-reported) by the property's own check on the first run and are caught after the strengthening described below; 0 are missed now.\n" % (len(rows), first)
+oos = sum(1 for d, m in rows if m.get("out_of_scope"))
+first = sum(1 for d, m in rows if not m.get("out_of_scope") and any(("first run" in v) or ("would have missed" in v) for v in m["checks_run_against_it"].values()))
+tab += ("\n%d seeded changes (four rounds; several later ones repeat an idea of an earlier round). %d escaped the property's own check -- or were mis-reported by it -- on the first run "
+        "and are detected after the strengthening described below; %d is kept as a documented non-detection because it does not break the property as stated; "
+        "every other one is detected by the check of its property (seeded/REGRESSION.md).\n" % (len(rows), first, oos))
 open(dp, "w").write(ds[:b0] + "<!-- SEEDED-TABLE-BEGIN -->\n" + tab + ds[b1:])
 print(open(os.path.join(ROOT, "INDEX.md")).read())
